@@ -202,7 +202,7 @@ OBL = [
     dict(id="fv-scope-join", fn=r"^lm_ots::signing::optimize_message_hash$", site=r"call:core::result::Result::unwrap", operand=r"^scope",
          reason="scope() returns Err only if a worker panicked; every panic-capable site of the worker and of what it calls is enumerated and discharged in this same run",
          requires=["fv-scope-and-channel"]),
-    dict(id="fv-send", fn=r"^lm_ots::signing::optimize_message_hash::\{closure#1\}::\{closure#0\}$", site=r"call:core::result::Result::unwrap", operand=r"^send",
+    dict(id="fv-send", fn=r"^lm_ots::signing::optimize_message_hash::\{closure#\d+\}::\{closure#\d+\}$", site=r"call:core::result::Result::unwrap", operand=r"^send",
          reason="send on an unbounded channel fails only when the receiver is gone; the receiver outlives the scope",
          requires=["fv-scope-and-channel"]),
 
